@@ -147,8 +147,23 @@ def gen_case(rng, udp):
         elif r < 0.87 and allids and not udp:
             ops.append("t:%d:%s" % (pick(rng, allids), rng.choice("chw")))
         elif r < 0.93 and allids:
-            ops.append("o:%d" % pick(rng, allids))
-            st["obs"] += 1
+            if rng.random() < 0.35:
+                # several observers on ONE session, some of the older ones unregistered: the fan-out must keep registration order
+                sid = pick(rng, allids)
+                first = st["obs"] + 1
+                k = rng.randint(3, 5)
+                for _ in range(k):
+                    ops.append("o:%d" % sid)
+                    st["obs"] += 1
+                for oid in rng.sample(range(first, first + k - 1), rng.randint(1, 2)):
+                    ops.append("u:%d" % oid)
+                if rng.random() < 0.5:
+                    ops.append("x:%d" % sid)
+                    if udp and sid in live:
+                        live.remove(sid)
+            else:
+                ops.append("o:%d" % pick(rng, allids))
+                st["obs"] += 1
         elif r < 0.95 and st["obs"]:
             ops.append("u:%d" % rng.randint(1, st["obs"]))
         elif r < 0.97 and allids:
@@ -177,6 +192,7 @@ def gen_case(rng, udp):
 
 
 CORPUS = [
+    "T 2 c:ok;o:3;o:3;o:3;o:3;o:3;u:2;u:1;m:3:4;x:3;q",
     "T 2 c:tlsok;o:3;c:tlsbad;c:tlshang;t:5:h;t:3:h;a:tls;a:tlsbad;t:6:c;k:3;q;x:6;q;z;q",
     "T 2 c:ok;o:3;o:3;m:3:1;a;d:3;d:4;u:1;t:3:c;x:3;c:refused;c:hole;t:7:c;q;z;q;c:ok",
     "T 2 c:ok;a;c:hole;p:3;t:3:w;t:4:w;b:4;g:5;q;Z:c/ok,c/refused,x/3,c/hole;q",
